@@ -986,6 +986,16 @@ func (v *Verifier) evalCall(env *Env, e *Expr) *Val {
 		return intVal(env.St.heapGet(it.Visited+"$n", SInt))
 	case "base":
 		return &Val{T: types.Typ[types.UnsafePointer], Term: arg(0).Fields[0].Term}
+	case "bytesstr":
+		// the string a byte slice converts to (same term as the conversion string(b) in code)
+		a := arg(0)
+		sl, ok := a.T.Underlying().(*types.Slice)
+		if !ok || len(a.Fields) < 2 {
+			unsupportedf("bytesstr: argument must be a byte slice")
+		}
+		hs := env.hs()
+		h := hs.heapGet(sliceHeapKey(sl.Elem(), ""), ArrSort(SInt, ArrSort(SInt, SInt)))
+		return &Val{T: types.Typ[types.String], Term: UF("bytes_str", SStr, Select(h, a.Fields[0].Term), a.Fields[1].Term)}
 	case "ref":
 		a := arg(0)
 		if env.X != nil {
